@@ -439,6 +439,43 @@ theorem before_fix_removed_list_kept_friends :
     ∃ row uid now, uid ≠ 0 ∧ hbflScan uid (((hbflReload true true row none now).drop 1).take MAX_FRIEND) = true :=
   ⟨fun _ _ _ => rfl, hbflReload true false (hbflFresh 5) (some [40]) 6, 40, 7, by decide, by decide⟩
 
+/-! ### histories on one article: comments and edits move `Modified`, never the authorship -/
+
+/-- isFileOwner does not look at the entry's `Modified`. -/
+theorem owner_ignores_modified (a : Article) (u : User) (m : Int) :
+    isFileOwner { a with entModified := m } u = isFileOwner a u := rfl
+
+/-- whatever sequence of accepted comments / edits (each storing its file time in `Modified`) an article has been
+through, its author is who it was. -/
+theorem history_keeps_author (u : User) (a : Article) (ms : List Int) :
+    Spec.isAuthor u (ms.foldl touch a) ↔ Spec.isAuthor u a := by
+  induction ms generalizing a with
+  | nil => exact Iff.rfl
+  | cons m r ih => exact (ih (touch a m)).trans Iff.rfl
+
+/-- A LATER account carrying the author's id (FirstLogin after the creation time in the article's name) that is not
+a sysop is refused by EditPost after any history of comments and edits on the article, whatever the other facts. -/
+theorem later_account_never_edits (x : Row) (ms : List Int) (hs : ¬ Spec.sysop x.u)
+    (hl : nameTime x.art.entName < x.u.firstLogin) :
+    ¬ accepted .editpost { x with art := ms.foldl touch x.art } := by
+  intro hacc
+  have h := ((accepted_iff_editpost _).mp hacc).1.2.2.2
+  rcases h with h | h
+  · have h' := (history_keeps_author x.u x.art ms).mp h
+    have := h'.2.2
+    omega
+  · exact hs h
+
+/-- non-vacuity: the later account of the thread histories (FirstLogin 1550000000, article of 1500000000). -/
+example : nameTime ownArticle.entName < (1550000000 : Int) := by decide
+
+/-- The broken rule (what a regression taking the entry's time from `Modified` would do): after one comment at
+`fixedNow` the later account passes the author test although it is not the author. -/
+theorem modified_time_rule_admits_later_account :
+    ∃ a u m, ¬ Spec.isAuthor u a ∧ isFileOwner (touch a m) u = false ∧ isFileOwnerByModified (touch a m) u = true :=
+  ⟨ownArticle, { witnessCoolingDown.u with firstLogin := 1550000000 }, (fixedNow : Int),
+    by intro h; have := h.2.2; revert this; decide, by decide, by decide⟩
+
 /-! ### non-vacuity: the base row of the decision table is accepted by all four operations and satisfies the rules -/
 
 def baseRow : Row := { witnessUnverified with u := { witnessUnverified.u with level := 0o31 } }
